@@ -43,7 +43,7 @@ def log(*a):
 def tlc(scratch, spec, cfg, *, workers=1, timeout=600, env=None, extra=(), tag="tlc", heap=None, dfs=False):
     """Run TLC in `scratch` (which already holds the .tla/.cfg files). Returns (stdout, stats)."""
     meta = tempfile.mkdtemp(prefix="meta-", dir=scratch)
-    jopts = ["-XX:+UseParallelGC", "-Xss64m"]
+    jopts = ["-XX:+UseParallelGC", "-Xss64m", "-Djava.io.tmpdir=" + meta]   # TLC leaves an empty tlc-<n> dir per run in the tmpdir
     if heap:
         jopts.append("-Xmx%s" % heap)
     if dfs:
